@@ -132,11 +132,18 @@ impl CommandLine {
 impl CommandResult {
 //@FN CommandResult::new
 }
-pub ghost struct CallLog { pub args: Seq<Seq<Seq<char>>>, pub last_status: int }
+pub ghost struct CallLog { pub args: Seq<Seq<Seq<char>>>, pub last_status: int, pub out: Seq<char> }
+// what the first n commands of the body wrote to stdout, one after the other, as they wrote it
+pub open spec fn outs(v: Seq<CommandResult>, n: int) -> Seq<char>
+    decreases n
+{
+    if n <= 0 { Seq::empty() } else { outs(v, n - 1) + v[n - 1].stdout@ }
+}
 // scripting::run_lines runs the body; the statuses of the commands it ran come back in order
 #[verifier::external_body]
 pub fn run_lines(sh: &mut Shell, lines: &str, args: &Vec<String>, capture: bool, Tracked(lg): Tracked<&mut CallLog>) -> (r: Vec<CommandResult>)
-    ensures final(lg).args == old(lg).args.push(strs(args@)), final(lg).last_status == (if r@.len() > 0 { r@.last().status as int } else { 0 })
+    ensures final(lg).args == old(lg).args.push(strs(args@)), final(lg).last_status == (if r@.len() > 0 { r@.last().status as int } else { 0 }),
+        final(lg).out == outs(r@, r@.len() as int)
 { unimplemented!() }
 #[verifier::external_body]
 pub fn vx_vec1(s: String) -> (r: Vec<String>) ensures r@.len() == 1, r@[0]@ == s@ { vec![s] }
@@ -224,11 +231,14 @@ try_run_func = Fn('src/core.rs', 'try_run_func', ret='r',
          'r.is_some() ==> final(lg).args.len() == old(lg).args.len() + 1 && final(lg).args.last() == seq!["cicada"@] + texts(cl.commands@[0].tokens@)'),
         ('C15.func.not_a_function_runs_nothing', 'r.is_none() ==> final(lg).args == old(lg).args'),
         ('C15.func.status_is_that_of_the_last_command', 'r.is_some() ==> r.unwrap().status as int == final(lg).last_status'),
+        # C11: captured, a function call yields exactly what its commands wrote (no trimming, no separators)
+        ('C11+C15.func.captured_output_is_what_the_commands_wrote_in_order', 'r.is_some() ==> r.unwrap().stdout@ == final(lg).out'),
     ],
     loops={
         0: Loop(invariant=[('C15.inv.func.args', 'strs(args@) == seq!["cicada"@] + texts(command.tokens@.take(__I as int))')]),
         1: Loop(invariant=[('C15.inv.func.status', 'status as int == (if __I > 0 { __V@[__I - 1].status as int } else { 0 }) '
-                                                   '&& lg.last_status == (if __V@.len() > 0 { __V@.last().status as int } else { 0 })')]),
+                                                   '&& lg.last_status == (if __V@.len() > 0 { __V@.last().status as int } else { 0 })'),
+                           ('C11+C15.inv.func.output_so_far', 'stdout@ == outs(__V@, __I as int) && lg.out == outs(__V@, __V@.len() as int)')]),
     },
     hints={'loop-0-body-entry': 'assert(command.tokens@.take(__I + 1) =~= command.tokens@.take(__I as int).push(command.tokens@[__I as int])); '
                                 'assert(texts(command.tokens@.take(__I as int).push(command.tokens@[__I as int])) =~= texts(command.tokens@.take(__I as int)).push(command.tokens@[__I as int].1@)); '
